@@ -23,7 +23,6 @@ package actor
 
 import (
 	"fmt"
-	"sort"
 	"strings"
 	"testing"
 	"time"
@@ -279,11 +278,9 @@ func c39rScenario(t *testing.T, spec c39rSpec, reps, L, D, F int, deadline time.
 		return evs
 	}
 	maxDepth := L + L*(reps-1) + D + F
-	st := c41BFS(vsched.BFSConfig{Scenario: name, Depth: maxDepth, ShardFirstOp: true, Deadline: deadline,
+	c41BFS(vsched.BFSConfig{Scenario: name, Depth: maxDepth, ShardFirstOp: true, Deadline: deadline,
 		Params: map[string]any{"type": spec.name, "replicas": reps, "max_updates": L, "max_duplicates": D, "max_fullstate_merges": F}},
 		400, alphabet, exec, show, batch)
-	_ = st
-	_ = sort.Strings
 }
 
 func c39rSig(base, cause string) string {
